@@ -1259,7 +1259,7 @@ func genCase(r *kit.Rand, id int) Case {
 		kinds := []string{"fresh", "fresh", "fresh", "running", "finished", "raced"}
 		phases := []int{0, 1, 1, 2, 2, 3}
 		if r.Chance(1, 12) { // many unstarted services whose owners start them while the orchestrator picks them up
-			n = r.Range(24, 96)
+			n = r.Range(16, 48)
 			kinds = []string{"raced", "raced", "raced", "fresh"}
 			phases = []int{1}
 			c.LingerMs = 2
@@ -1339,7 +1339,7 @@ func corpus() []Case {
 		{Kind: "orch", Hook: "orch-in-start", LingerMs: 20, Items: []Item{{Oc: "blkerr", Kind: "raced", Phase: 1}}, Rounds: 3},
 		{Kind: "orch", Hook: "orch-in-start", Items: []Item{{Oc: "weof", Kind: "raced", Phase: 1}}, Rounds: 2},
 		// the same race without hooks: many services, owners starting them while the orchestrator walks its queue
-		{Kind: "orch", LingerMs: 3, Items: rep(Item{Oc: "blkerr", Kind: "raced", Phase: 1}, 192), Rounds: 4},
+		{Kind: "orch", LingerMs: 3, Items: rep(Item{Oc: "blkerr", Kind: "raced", Phase: 1}, 64), Rounds: 6},
 		// control-valued errors (is / wraps io.EOF, a context error, ErrIteratorSkip, ErrCurrentOpAbort)
 		{Kind: "cleanup", Items: append([]Item{{Oc: "eof", Phase: 1}, {Oc: "wdeadline", Phase: 1}, {Oc: "wcanceled", Phase: 1}, {Oc: "skip", Phase: 1}, {Oc: "abort", Phase: 1}}, rep(Item{Oc: "ok", Phase: 1}, 40)...), Rounds: 2},
 		{Kind: "cleanup", Items: append(rep(Item{Oc: "ok", Phase: 1}, 20), append([]Item{{Oc: "weof", Phase: 1}}, rep(Item{Oc: "ok", Phase: 1}, 20)...)...), Rounds: 2},
